@@ -13,7 +13,7 @@ from pathlib import Path
 
 VERIF = Path(__file__).resolve().parents[1]
 REPO = Path(os.environ.get('HOMONIM_REPO', '/repo'))
-OUT = VERIF / 'coq' / 'gen' / 'Skeleton.v'
+OUT = Path(os.environ.get('SKELETON_OUT', VERIF / 'coq' / 'gen' / 'Skeleton.v'))
 
 RES = {'self._src_im': 0, 'self._ref_im': 1, 'corr_im': 2, 'out_im': 2, 'param_im': 3, 'self._param_im': 4}
 LOCKS = {'self._src_lock': 0, 'self._ref_lock': 1, 'self._corr_lock': 2, 'self._param_lock': 3, 'read_lock': 4, 'self._lock': 5}
@@ -155,11 +155,49 @@ def lock_class_map():
 class Worker:
     """Translate a worker body into the stmt IR (as Coq text)."""
 
-    def __init__(self, inline=None, shared_names=(), callee_writes=None):
+    def __init__(self, inline=None, shared_names=(), callee_writes=None, helpers=None, alias=None):
         self.inline = inline or {}      # call text -> already translated stmt list (Coq text list)
+        self.helpers = helpers or {}    # method name -> FunctionDef of helper methods of the same class, looked through when called on self
+        self.alias = dict(alias or {})  # local name -> the dataset / lock expression it stands for (helper parameters, renamed parameters)
+        self.depth = 0
         self.shared = set(SHARED_BASES) | set(shared_names)
         self.callee_writes = callee_writes or (lambda recv, meth: False)   # does recv.meth(...) write state shared between blocks?
         self.lock_stack = []            # lock ids held (with-blocks and explicit acquire) at the statement being translated
+
+    def canon(self, txt):
+        """a dotted name with a leading alias replaced by what it stands for"""
+        head, _, rest = txt.partition('.')
+        if head in self.alias:
+            return self.alias[head] + ('.' + rest if rest else '')
+        return txt
+
+    def helper_body(self, c):
+        """a call self.helper(...) of a small helper method of the same class: translate its body in place (extract-method refactoring)"""
+        g = self.helpers[c.func.attr]
+        params = [a.arg for a in g.args.posonlyargs + g.args.args]
+        static = any(isinstance(d, ast.Name) and d.id == 'staticmethod' for d in g.decorator_list)
+        if not static and params:
+            params = params[1:]
+        bind = {}
+        for p_, a in zip(params, c.args):
+            bind[p_] = a
+        for k in c.keywords:
+            if k.arg is not None:
+                bind[k.arg] = k.value
+        saved = dict(self.alias)
+        for p_, a in bind.items():
+            if isinstance(a, (ast.Name, ast.Attribute)):
+                self.alias[p_] = self.canon(ast.unparse(a))
+            else:
+                self.alias.pop(p_, None)
+        self.depth += 1
+        try:
+            if self.depth > 3:
+                raise TranslatorError('helper methods nested too deeply')
+            return self.stmts(g.body)
+        finally:
+            self.depth -= 1
+            self.alias = saved
 
     def expr_stmts(self, node):
         """IR statements for evaluating an expression / simple statement."""
@@ -168,6 +206,19 @@ class Worker:
             f = ast.unparse(c.func)
             if f in self.inline:
                 return list(self.inline[f])
+            if isinstance(c.func, ast.Attribute) and ast.unparse(c.func.value) == 'self' and c.func.attr in self.helpers:
+                return self.helper_body(c)
+            if isinstance(c.func, ast.Attribute) and self.canon(ast.unparse(c.func.value)) in LOCKS:
+                lk = LOCKS[self.canon(ast.unparse(c.func.value))]
+                if c.func.attr == 'acquire':
+                    out.append(f'SAcquire {lk}')
+                    self.lock_stack.append(lk)
+                    continue
+                if c.func.attr == 'release':
+                    out.append(f'SRelease {lk}')
+                    if lk in self.lock_stack:
+                        self.lock_stack.remove(lk)
+                    continue
             if isinstance(c.func, ast.Attribute) and ast.unparse(c.func.value) in LOCKS:
                 if c.func.attr == 'acquire':
                     out.append(f'SAcquire {LOCKS[ast.unparse(c.func.value)]}')
@@ -183,6 +234,7 @@ class Worker:
             parts = [c.func] + list(c.args) + [k.value for k in c.keywords]
             for p in parts:
                 for nm in names_in(p):
+                    nm = self.canon(nm)
                     if nm in RES:
                         mentioned.add(RES[nm])
             for r in sorted(mentioned):
@@ -209,13 +261,18 @@ class Worker:
 
     def stmts(self, body):
         out = []
-        for s in body:
+        for i, s in enumerate(body):
+            if isinstance(s, ast.If) and not s.orelse and s.body and isinstance(s.body[-1], ast.Return) and i + 1 < len(body):
+                # `if c: A; return` followed by B  ==  `if c: A else: B`
+                pre = self.expr_stmts(s.test) if calls_in(s.test) else []
+                out += pre + [f'SIf [{"; ".join(self.stmts(s.body))}] [{"; ".join(self.stmts(body[i + 1:]))}]']
+                return out
             out += self.stmt(s)
         return out
 
     def stmt(self, s):
         if isinstance(s, ast.With):
-            pushed = [LOCKS[ast.unparse(item.context_expr)] for item in s.items if ast.unparse(item.context_expr) in LOCKS]
+            pushed = [LOCKS[self.canon(ast.unparse(item.context_expr))] for item in s.items if self.canon(ast.unparse(item.context_expr)) in LOCKS]
             self.lock_stack += pushed
             try:
                 inner = self.stmts(s.body)
@@ -223,7 +280,7 @@ class Worker:
                 for l in pushed:
                     self.lock_stack.remove(l)
             for item in reversed(s.items):
-                nm = ast.unparse(item.context_expr)
+                nm = self.canon(ast.unparse(item.context_expr))
                 if nm in LOCKS:
                     inner = [f'SWith {LOCKS[nm]} [{"; ".join(inner)}]']
                 elif any(k in nm for k in LOCKS):
@@ -231,6 +288,10 @@ class Worker:
                 else:
                     inner = self.expr_stmts(item.context_expr) + inner
             return inner
+        if isinstance(s, ast.Assign) and len(s.targets) == 1 and isinstance(s.targets[0], ast.Name) and isinstance(s.value, (ast.Name, ast.Attribute)) \
+                and (self.canon(ast.unparse(s.value)) in RES or self.canon(ast.unparse(s.value)) in LOCKS):
+            self.alias[s.targets[0].id] = self.canon(ast.unparse(s.value))
+            return ['SLocal']
         if isinstance(s, (ast.Assign, ast.AugAssign, ast.AnnAssign)):
             targets = s.targets if isinstance(s, ast.Assign) else [s.target]
             out = self.expr_stmts(s.value) if getattr(s, 'value', None) is not None else []
@@ -331,6 +392,14 @@ def out_files_info(func, process_func):
             if 'overwrite' in t and '.exists()' in t and raises_fee and not s.orelse:
                 k = 'FParam' if 'param_filename' in t else 'FCorr'
                 entry.append(f'FCheck {k}')
+                continue
+            opens = [a for a in ast.walk(s) if isinstance(a, ast.Assign) and '.open(' in ast.unparse(a.value)]
+            others = [a for a in ast.walk(s) if isinstance(a, (ast.Raise, ast.Try, ast.With, ast.For, ast.While, ast.Return))]
+            if len(opens) == 1 and not others:
+                v = ast.unparse(opens[0].value)
+                if not ("'w'" in v or '"w"' in v):
+                    raise TranslatorError(f'_out_files: open() not in write mode at line {s.lineno}')
+                entry.append(f'FOpenW {kind(v)}')
                 continue
             raise TranslatorError(f'_out_files: unrecognised if at line {s.lineno}')
         if isinstance(s, ast.Assign):
@@ -495,8 +564,30 @@ def generate():
         if recv == 'self':
             return callee_shared(self_family, self_cls, meth) if meth in self_family else False
         return False
+    def helpers_of(tree, cls, keep):
+        """small methods of the class (no loops, no try, no yield, no nested functions) other than the named entry points"""
+        out = {}
+        for node in tree.body:
+            if isinstance(node, ast.ClassDef) and node.name == cls:
+                for f in node.body:
+                    if isinstance(f, ast.FunctionDef) and f.name not in keep and not f.name.startswith('__') and not f.decorator_list_has_property \
+                            and not any(isinstance(n, (ast.For, ast.While, ast.Try, ast.Yield, ast.YieldFrom, ast.FunctionDef, ast.Lambda)) and n is not f for n in ast.walk(f)):
+                        out[f.name] = f
+        return out
+    for tree in (rp, fu, cm, st):
+        for node in ast.walk(tree):
+            if isinstance(node, ast.FunctionDef):
+                node.decorator_list_has_property = any(ast.unparse(d) in ('property', 'contextmanager') or ast.unparse(d).endswith('.setter') for d in node.decorator_list)
     read_ir = Worker(callee_writes=callee_writes).stmts(find_func(rp, 'RasterPairReader', 'read').body)
-    fuse_ir = Worker(inline={'self.read': read_ir}, callee_writes=callee_writes).stmts(find_func(fu, 'RasterFuse', '_process_block').body)
+    pb = find_func(fu, 'RasterFuse', '_process_block')
+    pb_params = [a.arg for a in pb.args.args]
+    if len(pb_params) < 5:
+        raise TranslatorError('_process_block: (self, block_pair, model, corrected dataset, parameter dataset) expected')
+    # the datasets are the 4th and 5th parameter whatever they are called; process() must hand its two output datasets over in that order
+    pb_alias = {pb_params[3]: 'corr_im', pb_params[4]: 'param_im'}
+    fuse_helpers = helpers_of(fu, 'RasterFuse', keep=('_process_block', 'process', 'read', 'block_pairs', '_out_files', '_set_metadata', '_set_corr_metadata',
+                                                      '_set_param_metadata', '_build_overviews', '_merge_corr_profile', '_merge_param_profile', 'open', 'close'))
+    fuse_ir = Worker(inline={'self.read': read_ir}, callee_writes=callee_writes, helpers=fuse_helpers, alias=pb_alias).stmts(pb.body)
     cmp_ir = Worker(inline={'self.read': read_ir}, shared_names=['image_sums'], callee_writes=callee_writes).stmts(
         find_func(cm, 'RasterCompare', 'process', 'get_block_sums').body)
     stats_writes = lambda recv, meth: callee_writes(recv, meth, stats_family, ['ParamStats'])  # noqa: E731
